@@ -83,10 +83,23 @@ def self_validation(prop: str) -> None:
     print(f"[{prop}/thorough] self-validation on the current tree: {tally}")
     for r in bad:
         print(f"  SELFTEST {r['status']}: {r['id']} {r.get('hits', [])[:3]} {r.get('errors', [])[:1]}")
+    # operator sweep restricted to this property (a measuring device: survivors are equivalent mutants, changes outside the statement,
+    # crashes or gaps - never violations); skipped with VERIF_NO_SWEEP=1
+    sweep_res = None
+    if os.environ.get("VERIF_NO_SWEEP") != "1":
+        from selftest import sweep as _sweep
+        t_sw = __import__("time").time()
+        sweep_res = _sweep.run_for_property(prop)
+        sweep_res["seconds"] = round(__import__("time").time() - t_sw, 1)
+        print(f"[{prop}/thorough] operator sweep over {len(sweep_res['files'])} files the rules react to: {sweep_res['mutants']} single-operator mutants, {sweep_res['tally']} ({sweep_res['seconds']}s)")
     ev_path = os.path.join(here, "evidence", f"{prop}.json")
     try:
         with open(ev_path) as f:
             ev = json.load(f)
+        if sweep_res is not None:
+            ev["coverage"]["operator_sweep"] = dict(sweep_res, note="one operator-level change at a time (comparison flipped, operator / operands / arguments exchanged, constant moved, "
+                                                    "paired name exchanged), at most 40 per file, analysed by this property's rules; a survivor is an equivalent mutant, a change "
+                                                    "outside the statement, a crash no test suite lets through, or a gap (DESIGN.md 9.3) - not a violation")
         ev["coverage"]["self_validation"] = {
             "tally": tally,
             "mutants": [{"id": r["id"], "status": r["status"], "hits": r.get("hits", [])[:3]} for r in results if r.get("kind") == "mutant"],
